@@ -259,21 +259,30 @@ Proof.
   assert (He : has_type (TInt (-9223372036854775808) 9223372036854775807) (VInt e) = true).
   { simpl. apply andb_true_iff. split; apply Z.leb_le; lia. }
   clearbody e n. clear Hr now_ns name.
-  destruct (d =? 0); clear d.
-  - repeat split; try (vm_compute; reflexivity).
+  (* every conjunct but the last computes on the concrete structure; the last one
+     (has_type) has symbolic leaves and must NOT be computed *)
+  destruct (d =? 0); clear d;
+    (split; [vm_compute; reflexivity|]);
+    (split; [vm_compute; reflexivity|]);
+    (split; [vm_compute; reflexivity|]);
+    (split; [vm_compute; reflexivity|]);
+    (split; [vm_compute; reflexivity|]);
+    (split; [vm_compute; reflexivity|]);
     match goal with
     | |- has_type ?t ?m = true =>
         let m' := eval vm_compute in m in
         replace m with m' by (vm_compute; reflexivity)
-    end.
+    end;
     close_typed.
-  - repeat split; try (vm_compute; reflexivity).
-    match goal with
-    | |- has_type ?t ?m = true =>
-        let m' := eval vm_compute in m in
-        replace m with m' by (vm_compute; reflexivity)
-    end.
-    close_typed.
+Qed.
+
+(* the range hypothesis of issue_user_claims_spec is needed: the schema gives "exp" the
+   int64 range, and the model's now_ns, d are unbounded integers *)
+Lemma issue_user_claims_range_needed : exists now_ns d c,
+  issue_user_claims RAccount RUser "A" "U" "" now_ns d (VList None) = Some c /\
+  has_type sch_user c = false.
+Proof.
+  exists 10000000000000000000000000000, 1. eexists. split; [reflexivity|]. vm_compute. reflexivity.
 Qed.
 
 Print Assumptions scoped_signer_iff.
